@@ -52,31 +52,40 @@ Proof.
   induction s as [|c s IH]; [reflexivity|]. cbn [existsb]. intro H. apply orb_false_iff in H as [H1 H2].
   rewrite N.eqb_sym in H1. cbn [norm_eol]. rewrite H1. rewrite IH by exact H2. reflexivity.
 Qed.
-Lemma text_safe_norm s : text_safe s = true -> norm_text (Some s) = Some s /\ str_chars_ok s = true.
+Lemma text_safe_norm s : text_safe s = true ->
+  norm_text (Some s) = match s with [] => None | _ => Some s end /\ str_chars_ok s = true.
 Proof.
-  unfold text_safe. intro H. apply andb_true_iff in H as [H H3]. apply andb_true_iff in H as [H1 H2].
+  unfold text_safe. intro H. apply andb_true_iff in H as [H2 H3].
   apply negb_true_iff in H3. split; [|exact H2].
-  destruct s as [|c s]; [discriminate|]. unfold norm_text. rewrite norm_eol_id by exact H3. reflexivity.
+  destruct s as [|c s]; [reflexivity|]. unfold norm_text. rewrite norm_eol_id by exact H3. reflexivity.
 Qed.
 
 Lemma mapM_id_forall {A} (f : A -> res A) l : Forall (fun x => f x = Ok x) l -> mapM f l = Ok l.
 Proof. intro H. apply mapM_id_in. rewrite Forall_forall in H. exact H. Qed.
 
-Lemma clean_norm e : xml_clean e = true -> xml_norm e = Ok e.
+Lemma clean_norm e : xml_clean e = true -> xml_norm e = Ok (xml_strip e).
 Proof.
-  induction e as [t a tx c IH] using xml_ind'. cbn [xml_clean xml_norm]. intro H.
+  induction e as [t a tx c IH] using xml_ind'. cbn [xml_clean xml_norm xml_strip]. intro H.
   repeat (apply andb_true_iff in H; destruct H as [H ?]).
   assert (Ha : forallb (fun kv : str * str => str_chars_ok (snd kv)) a = true).
   { eapply forallb_impl; [|eassumption]. intros x _ Hx. apply andb_true_iff in Hx. tauto. }
   rewrite Ha.
-  assert (Ht : text_chars_ok tx = true /\ (match c with [] => norm_text tx | _ => None end) = tx).
+  assert (Ht : text_chars_ok tx = true /\ (match c with [] => norm_text tx | _ => None end) =
+               (match c with [] => match tx with Some [] => None | x => x end | _ => None end)).
   { destruct tx as [s|]; cbn [text_chars_ok]; [|destruct c; auto].
-    destruct (text_safe_norm s) as [A B]; [assumption|]. destruct c; [auto | discriminate]. }
+    destruct (text_safe_norm s) as [A B]; [assumption|]. split; [exact B|]. destruct c; [|reflexivity].
+    rewrite A. destruct s; reflexivity. }
   destruct Ht as [Ht1 Ht2]. rewrite Ht1, Ht2. cbn [andb].
-  match goal with |- bind ?m _ = _ => assert (Hm : m = Ok c) end.
+  match goal with |- bind ?m _ = _ => assert (Hm : m = Ok (map xml_strip c)) end.
   { clear - IH H0. induction c as [|x c IHc]; [reflexivity|]. cbn [forallb] in H0. apply andb_true_iff in H0 as [Hx Hc].
-    inversion IH; subst. rewrite H1 by exact Hx. cbn [bind]. rewrite IHc by assumption. reflexivity. }
+    inversion IH; subst. rewrite H1 by exact Hx. cbn [bind map]. rewrite IHc by assumption. reflexivity. }
   rewrite Hm. reflexivity.
+Qed.
+
+Lemma strip_depth e : xml_depth (xml_strip e) = xml_depth e.
+Proof.
+  induction e as [t a tx c IH] using xml_ind'. cbn [xml_strip xml_depth]. f_equal.
+  induction c as [|x c IHc]; [reflexivity|]. inversion IH; subst. cbn [map fold_right]. rewrite H1, IHc by assumption. reflexivity.
 Qed.
 
 Lemma clean_not_poisoned e : xml_clean e = true -> xml_poisoned e = false /\ xml_has_surrogate e = false.
@@ -117,22 +126,26 @@ Proof. destruct b; reflexivity. Qed.
 
 Ltac xrw := repeat (first [rewrite xtime_rt | rewrite xbool_rt]; cbn [bind req_some of_option]).
 
+(* The loaders are applied to what the text layer returns: xml_strip of the saved tree ("" texts of leaf elements are None). *)
 Lemma xsteps_rt steps : forallb step_safe steps = true ->
-  mapM (fun e => xml_load_step tc e) (xml_save_steps_children tc steps) = Ok steps.
+  mapM (fun e => xml_load_step tc e) (map xml_strip (xml_save_steps_children tc steps)) = Ok steps.
 Proof.
-  intro Hs. unfold xml_save_steps_children. apply mapM_map_id_in. intros [d st en logs] Hin.
+  intro Hs. unfold xml_save_steps_children. rewrite map_map. apply mapM_map_id_in. intros [d st en logs] Hin.
   rewrite forallb_forall in Hs. specialize (Hs _ Hin). unfold step_safe in Hs. cbn [st_description st_start st_logs] in Hs.
   split_and. destruct st as [st|]; [|discriminate].
   unfold xml_load_step. destruct en as [en|]; xsimp; xrw.
-  all: rewrite mapM_map_id; [reflexivity|]; intros [lv m t|ds ok dt t|ds f im t|ds u t]; xsimp; xrw; reflexivity.
+  all: rewrite map_map; rewrite mapM_map_id_in; [reflexivity|].
+  all: match goal with H : forallb log_safe ?l = true |- _ => rewrite forallb_forall in H; rename H into Hl end.
+  all: intros [lv m t|ds ok dt t|ds f im t|ds u t] Hlog; specialize (Hl _ Hlog); unfold log_safe in Hl; split_and.
+  all: try (destruct dt as [[|c0 dt]|]; try discriminate); try destruct m; try destruct f; try destruct u; xsimp; xrw; reflexivity.
 Qed.
 
 Lemma steps_children_filter k steps :
-  filter (has_tag k) (xml_save_steps_children tc steps) =
-  if str_eqb K_step k then xml_save_steps_children tc steps else [].
+  filter (has_tag k) (map xml_strip (xml_save_steps_children tc steps)) =
+  if str_eqb K_step k then map xml_strip (xml_save_steps_children tc steps) else [].
 Proof.
-  unfold xml_save_steps_children. destruct (str_eqb K_step k) eqn:E;
-    [apply filter_map_all | apply filter_map_none]; intro x; unfold has_tag; cbn [xtag]; exact E.
+  unfold xml_save_steps_children. rewrite map_map. destruct (str_eqb K_step k) eqn:E;
+    [apply filter_map_all | apply filter_map_none]; intro x; unfold has_tag; cbn [xtag xml_strip]; exact E.
 Qed.
 
 (* filter (has_tag K) over a children list made of ++ / map / literal segments *)
@@ -153,34 +166,31 @@ Ltac filt_all C :=
       assert (F : filter (has_tag K) C = l) by (subst C l; filt; rewrite ?app_nil_r; reflexivity);
       rewrite F; clear F; subst l
   end.
+(* children of a stripped element: push xml_strip through ++ and map *)
+Ltac push_strip := rewrite ?map_app, ?map_map; cbn [map].
 
-(* links: the optional name attribute written under `if link[1]:` comes back unless it is "" *)
+(* tags / properties / info: "" comes back through `or ""` *)
+Ltac xtexts_tac :=
+  rewrite mapM_map_id by (first [intros [|? ?]; reflexivity | intros [? [|? ?]]; reflexivity]); cbn [bind].
+(* links: the optional name attribute written under `if link[1] is not None:` comes back as it is *)
 Ltac xlinks_tac :=
-  match goal with
-  | Hl : forallb (fun l => text_safe (fst l) && oattr_safe (snd l)) ?lk = true |- _ =>
-      rewrite (mapM_map_id_in _ _ lk) by
-        (let Hin := fresh "Hin" in
-         intros [? [[|? ?]|]] Hin; rewrite forallb_forall in Hl; specialize (Hl _ Hin); cbn [fst snd] in Hl;
-         split_and; try discriminate; reflexivity)
-  end.
+  rewrite mapM_map_id by (intros [[|? ?] [?|]]; reflexivity); cbn [bind].
 
 Lemma xtest_rt t : test_safe t = true -> meta_unique (t_meta t) = true ->
-  xml_load_test tc (xml_save_test tc t) = Ok t.
+  xml_load_test tc (xml_strip (xml_save_test tc t)) = Ok t.
 Proof.
   destruct t as [[n d tg pr lk] [st en s sd steps]]. unfold test_safe, meta_safe, result_safe, meta_unique.
   cbn [t_meta t_result m_name m_description m_tags m_properties m_links r_start r_end r_status r_status_details r_steps].
   intros Hs Hu. split_and.
   unfold xml_save_test, xml_load_test, xml_save_node_metadata_attrs, xml_save_node_metadata_children,
     xml_save_result_attrs, xml_save_result_children, xfindall.
-  cbn [xchildren r_steps t_result t_meta m_tags m_properties m_links].
+  cbn [xml_strip xchildren r_steps t_result t_meta m_tags m_properties m_links]. push_strip.
   filt.
   destruct st as [st|]; [|discriminate].
-  destruct s as [[|c1 s]|]; try discriminate; destruct sd as [[|c2 sd]|]; try discriminate; destruct en as [en|];
+  destruct s as [[|c1 s]|]; try discriminate; destruct sd as [sd|]; destruct en as [en|];
     xsimp; xrw.
   all: rewrite ?app_nil_r; rewrite xsteps_rt by assumption; cbn [bind].
-  all: rewrite mapM_map_id by (intro; reflexivity); cbn [bind].
-  all: rewrite mapM_map_id by (intros [? ?]; reflexivity); cbn [bind].
-  all: xlinks_tac; cbn [bind].
+  all: xtexts_tac; xtexts_tac; xlinks_tac.
   all: rewrite dict_of_pairs_id by assumption; reflexivity.
 Qed.
 
@@ -192,34 +202,31 @@ Lemma res_facts r : result_safe r = true ->
     match r_end r with Some e => Some (xml_save_time tc (Some e)) | None => None end /\
   assoc K_status (xml_save_result_attrs tc r) = r_status r /\
   assoc K_status__details (xml_save_result_attrs tc r) = r_status_details r /\
-  mapM (fun e => xml_load_step tc e) (filter (has_tag K_step) (xml_save_result_children tc r)) = Ok (r_steps r).
+  mapM (fun e => xml_load_step tc e) (filter (has_tag K_step) (map xml_strip (xml_save_result_children tc r))) = Ok (r_steps r).
 Proof.
   destruct r as [st en s sd steps]. unfold result_safe.
   cbn [r_start r_end r_status r_status_details r_steps]. intro H. split_and.
   destruct st as [st|]; [|discriminate]. exists st. split; [reflexivity|].
   unfold xml_save_result_attrs, xml_save_result_children. cbn [r_steps].
   rewrite steps_children_filter, str_eqb_refl. rewrite xsteps_rt by assumption.
-  destruct s as [[|c1 s]|]; try discriminate; destruct sd as [[|c2 sd]|]; try discriminate; destruct en as [en|];
+  destruct s as [[|c1 s]|]; try discriminate; destruct sd as [sd|]; destruct en as [en|];
     xsimp; repeat split; reflexivity.
 Qed.
 
-Lemma xsuite_tag k s : has_tag k (xml_save_suite tc s) = str_eqb K_suite k.
-Proof. destruct s. reflexivity. Qed.
-
 Lemma xsuite_rt s : forall fuel, suite_safe s = true -> suite_unique s = true -> (suite_depth s <= fuel)%nat ->
-  xml_load_suite tc fuel (xml_save_suite tc s) = Ok s.
+  xml_load_suite tc fuel (xml_strip (xml_save_suite tc s)) = Ok s.
 Proof.
   induction s as [m st en su td tests subs IH] using suite_ind'. intros fuel Hs Hu Hd.
   destruct fuel as [|fuel]; [simpl in Hd; lia|].
   destruct m as [n d tg pr lk].
   cbn [suite_safe suite_unique] in Hs, Hu. unfold meta_safe, meta_unique in Hs, Hu.
   cbn [m_name m_description m_tags m_properties m_links] in Hs, Hu. split_and.
-  assert (Hsub : mapM (fun e => xml_load_suite tc fuel e) (map (xml_save_suite tc) subs) = Ok subs).
+  assert (Hsub : mapM (fun e => xml_load_suite tc fuel e) (map (fun x => xml_strip (xml_save_suite tc x)) subs) = Ok subs).
   { apply mapM_map_id_in. intros x Hx. rewrite Forall_forall in IH. apply IH; [exact Hx | | |].
     - match goal with H : forallb suite_safe subs = true |- _ => rewrite forallb_forall in H; apply H; exact Hx end.
     - match goal with H : forallb suite_unique subs = true |- _ => rewrite forallb_forall in H; apply H; exact Hx end.
     - cbn [suite_depth] in Hd. pose proof (fold_max_le suite_depth x subs Hx). lia. }
-  assert (Htests : mapM (fun e => xml_load_test tc e) (map (xml_save_test tc) tests) = Ok tests).
+  assert (Htests : mapM (fun e => xml_load_test tc e) (map (fun x => xml_strip (xml_save_test tc x)) tests) = Ok tests).
   { apply mapM_map_id_in. intros x Hx. apply xtest_rt.
     - match goal with H : forallb test_safe tests = true |- _ => rewrite forallb_forall in H; apply H; exact Hx end.
     - match goal with H : forallb (fun t => nodup_keys _) tests = true |- _ =>
@@ -227,7 +234,7 @@ Proof.
   destruct st as [st|]; [|discriminate].
   cbn [xml_save_suite xml_load_suite].
   unfold xml_save_node_metadata_attrs, xml_save_node_metadata_children, xfind, xfindall.
-  cbn [xchildren m_name m_description m_tags m_properties m_links].
+  cbn [xml_strip xchildren m_name m_description m_tags m_properties m_links].
   destruct su as [su|];
     [match goal with H : oresult_safe (Some su) = true |- _ =>
        destruct (res_facts su H) as (zs & Hs1 & Hs2 & Hs3 & Hs4 & Hs5 & Hs6); destruct su as [s1 s2 s3 s4 s5];
@@ -237,15 +244,14 @@ Proof.
        destruct (res_facts td H) as (zt & Ht1 & Ht2 & Ht3 & Ht4 & Ht5 & Ht6); destruct td as [t1 t2 t3 t4 t5];
        cbn [r_start r_end r_status r_status_details r_steps] in Ht1, Ht3, Ht4, Ht5, Ht6; subst t1 end|]).
   all: destruct en as [en|].
+  all: push_strip; cbn [xml_strip].
   all: match goal with |- context [filter _ ?c] => set (C := c) end; filt_all C; subst C.
   all: xsimp; xrw.
   all: unfold xattr, xhas_attr, xattr_opt, has_key; cbn [xattrs];
        rewrite ?Hs2, ?Hs3, ?Hs4, ?Hs5, ?Hs6, ?Ht2, ?Ht3, ?Ht4, ?Ht5, ?Ht6.
   all: try destruct s2; try destruct t2; xsimp; xrw.
   all: rewrite ?Hs6, ?Ht6; cbn [bind].
-  all: rewrite mapM_map_id by (intro; reflexivity); cbn [bind].
-  all: rewrite mapM_map_id by (intros [? ?]; reflexivity); cbn [bind].
-  all: xlinks_tac; cbn [bind].
+  all: xtexts_tac; xtexts_tac; xlinks_tac.
   all: rewrite Htests; cbn [bind]; rewrite Hsub; cbn [bind].
   all: rewrite dict_of_pairs_id by assumption; rewrite tests_dict_id by assumption; reflexivity.
 Qed.
@@ -263,15 +269,15 @@ Proof.
 Qed.
 
 Theorem xml_report_rt now r : xml_safeb r = true -> unique_keys r ->
-  xml_load_report tc (xml_save_report tc now r) = Ok (with_saving (Some now) r).
+  xml_load_report tc (xml_strip (xml_save_report tc now r)) = Ok (with_saving (Some now) r).
 Proof.
   intros Hs Hu. destruct r as [title info st en sav nb su td suites].
   unfold unique_keys, unique_keysb in Hu. unfold xml_safeb in Hs.
   cbn [rp_suites rp_title rp_info rp_start rp_session_setup rp_session_teardown] in Hs, Hu. split_and.
   unfold xml_save_report, xml_load_report, with_saving, xfind, xfindall.
-  cbn [xchildren rp_suites rp_title rp_info rp_start rp_end rp_nb_threads rp_session_setup rp_session_teardown].
-  assert (Hsu : mapM (fun e => xml_load_suite tc (xml_depth e) e) (map (xml_save_suite tc) suites) = Ok suites).
-  { apply mapM_map_id_in. intros x Hx. apply xsuite_rt; [| |apply xsuite_depth_le].
+  cbn [xml_strip xchildren rp_suites rp_title rp_info rp_start rp_end rp_nb_threads rp_session_setup rp_session_teardown].
+  assert (Hsu : mapM (fun e => xml_load_suite tc (xml_depth e) e) (map (fun x => xml_strip (xml_save_suite tc x)) suites) = Ok suites).
+  { apply mapM_map_id_in. intros x Hx. apply xsuite_rt; [| |rewrite strip_depth; apply xsuite_depth_le].
     - match goal with H : forallb suite_safe suites = true |- _ => rewrite forallb_forall in H; apply H; exact Hx end.
     - rewrite forallb_forall in Hu. apply Hu. exact Hx. }
   destruct st as [st|]; [|discriminate].
@@ -284,14 +290,16 @@ Proof.
        destruct (res_facts td H) as (zt & Ht1 & Ht2 & Ht3 & Ht4 & Ht5 & Ht6); destruct td as [t1 t2 t3 t4 t5];
        cbn [r_start r_end r_status r_status_details r_steps] in Ht1, Ht3, Ht4, Ht5, Ht6; subst t1 end|]).
   all: destruct en as [en|].
+  all: push_strip; cbn [xml_strip].
   all: match goal with |- context [filter _ ?c] => set (C := c) end; filt_all C; subst C.
   all: xsimp; xrw.
   all: destruct Hc as [_ Hi]; rewrite Hi; cbn [of_option bind].
+  all: destruct title; xsimp.
   all: unfold xattr, xhas_attr, xattr_opt, has_key; cbn [xattrs];
        rewrite ?Hs2, ?Hs3, ?Hs4, ?Hs5, ?Hs6, ?Ht2, ?Ht3, ?Ht4, ?Ht5, ?Ht6.
   all: try destruct s2; try destruct t2; xsimp; xrw.
   all: rewrite ?Hs6, ?Ht6; cbn [bind].
-  all: rewrite mapM_map_id by (intros [? ?]; reflexivity); cbn [bind].
+  all: xtexts_tac.
   all: rewrite Hsu; cbn [bind]; reflexivity.
 Qed.
 
@@ -332,7 +340,7 @@ Proof.
   rewrite forallb_map. eapply forallb_impl; [|eassumption].
   intros [lv m t|ds ok dt t|ds f im t|ds u t] _ Hl; unfold log_safe in Hl; split_and.
   1,3,4: elem_tac.
-  destruct dt as [dt|]; [cbn [otext_safe] in *; elem_tac | elem_tac; reflexivity].
+  destruct dt as [dt|]; [cbn [otext_safe] in *; split_and; elem_tac | elem_tac; reflexivity].
 Qed.
 
 Lemma result_clean r : result_safe r = true ->
